@@ -31,13 +31,35 @@ def normalize(v):
     return v / (nvals or 1)
 
 
+def _shares_memory(lhs, rhs):
+    arrays = rhs._xyz.values() if isinstance(rhs, Vector) else [rhs]
+    return any(
+        np.shares_memory(a._array, xyz._array)
+        for a in arrays
+        for xyz in lhs._xyz.values()
+    )
+
+
 def _binary_op(op, lhs, rhs):
+    inplace = op in ("__iadd__", "__isub__", "__imul__", "__itruediv__")
     if isinstance(rhs, (int, float, np.ndarray, Quantity)):
         rhs = Array(values=rhs)
+    if inplace and (rhs is not lhs) and isinstance(rhs, (Array, Vector)):
+        # The components are updated one after the other: an operand that is (a view
+        # of) one of them must not change while the update is in progress
+        if _shares_memory(lhs, rhs):
+            rhs = rhs.copy()
     if isinstance(rhs, Array):
         rhs = lhs.__class__(**{c: rhs for c in lhs._xyz.keys()})
     if lhs.nvec != rhs.nvec:
         raise ValueError("Operands do not have the same number of components.")
+
+    if inplace:
+        # Update the components of this very object (value and unit), so that every
+        # other reference to the Vector or to its components observes the update
+        for c, xyz in lhs._xyz.items():
+            getattr(xyz, op)(getattr(rhs, c))
+        return lhs
 
     return lhs.__class__(
         **{c: getattr(xyz, op)(getattr(rhs, c)) for c, xyz in lhs._xyz.items()}
